@@ -150,8 +150,9 @@ def gibbs_save_load_continue(h, cls, d, hist, limits):
         _cleanup(tmp)
 
 
-@unit("C09", quick=[dict(d=2, bounded=False, hist=1), dict(d=2, bounded=True, hist=2)], max_paths=4000, cost=5)
-def pca_save_load_continue(h, d, bounded, hist):
+@unit("C09", quick=[dict(d=2, bounded=False, hist=1, updated=False), dict(d=2, bounded=True, hist=2, updated=False), dict(d=2, bounded=False, hist=2, updated=True)],
+      thorough=[dict(d=3, bounded=False, hist=2, updated=True)], max_paths=4000, cost=5)
+def pca_save_load_continue(h, d, bounded, hist, updated):
     import inference.mcmc.pca as pca
     import inference.mcmc.utilities as ut
     ev = mc.Events()
@@ -167,13 +168,28 @@ def pca_save_load_continue(h, d, bounded, hist):
             p.samples.append(v)
         a.probs.append(post(pt) * a.inv_temp)
         a.chain_length += 1
+    dt = object if h.sym else float
+    if updated:
+        # arbitrary state after direction updates: general (non-symmetric) direction matrix, covariance estimate,
+        # convergence history and a later update schedule
+        V = h.real("dir", (d, d))
+        a.directions = [np.array(V[:, i], dtype=dt) for i in range(d)]
+        C = h.real("covar", (d, d))
+        a.covar = 0.5 * (C + C.T)
+        a.angles_history = [list(h.real("angles", d))]
+        a.update_history = [100]
+        a.last_update, a.dir_update_interval, a.next_update = 100, 150, 250
     fn, tmp = _store(h, pca, __import__("inference.mcmc.gibbs", fromlist=["x"]))
     try:
-        a.save(fn)  # before the first direction update
+        a.save(fn)  # also before the first direction update (updated=False)
         b = pca.PcaChain.load(fn, posterior=post)
         _cmp_common(h, a, b, d, "loaded: ")
         h.eq("loaded: temperature", b.inv_temp, a.inv_temp)
         h.eq("loaded: directions", np.array(b.directions), np.array(a.directions))
+        if updated:
+            h.eq("loaded: covariance estimate", np.asarray(b.covar), np.asarray(a.covar))
+            h.eq("loaded: convergence history", np.array(b.angles_history), np.array(a.angles_history))
+            h.same("loaded: update history", [int(v) for v in b.update_history], [int(v) for v in a.update_history])
         h.same("loaded: update schedule", (int(b.last_update), int(b.next_update), int(b.dir_update_interval)), (a.last_update, a.next_update, a.dir_update_interval))
         if bounded:
             h.eq("loaded: bounds", np.concatenate([b.bounds.lower, b.bounds.upper]), np.concatenate([a.bounds.lower, a.bounds.upper]))
